@@ -160,6 +160,8 @@ pub enum OpKind {
     /// the payload of the k-th accepted version sent again with the parent of the j-th one (a stale
     /// request that happens to carry bytes the server already holds)
     ResendStale { k: usize, j: usize },
+    /// let more than a second of wall-clock time pass (snapshot times have one-second resolution)
+    Pause,
 }
 
 #[derive(Clone, Debug, PartialEq)]
@@ -185,6 +187,7 @@ impl Op {
                 json!({"c": self.client, "op": "Probe(GetChildVersion;AddVersion)", "parent": format!("{:?}", parent), "pay": pay.json()})
             }
             OpKind::Resend { k } => json!({"c": self.client, "op": "AddVersion(resend of accepted #k)", "k": k}),
+            OpKind::Pause => json!({"c": self.client, "op": "Pause(1.1 s)"}),
             OpKind::ResendStale { k, j } => json!({"c": self.client, "op": "AddVersion(payload of accepted #k, parent of accepted #j)", "k": k, "j": j}),
         }
     }
@@ -197,6 +200,7 @@ impl Op {
             OpKind::Probe { .. } => "Probe",
             OpKind::Resend { .. } => "Resend",
             OpKind::ResendStale { .. } => "ResendStale",
+            OpKind::Pause => "Pause",
         }
     }
 }
